@@ -983,15 +983,25 @@ class DisjointSet(object):
             else:
                 self.group[leadera].add(b)
                 self.leader[b] = leadera
+                self._rank(leadera, b)
         else:
             if leaderb is not None:
                 self.group[leaderb].add(a)
                 self.leader[a] = leaderb
+                self._rank(leaderb, a)
             else:
                 if self.comp is not None and self.comp(a, b) > 0:
                     a, b = b, a
                 self.leader[a] = self.leader[b] = a
                 self.group[a] = set([a, b])
+
+    def _rank(self, leader: FNode, member: FNode):
+        """Makes the new member the leader of its group if it ranks better"""
+        if self.comp is not None and self.comp(leader, member) > 0:
+            group = self.group.pop(leader)
+            self.group[member] = group
+            for k in group:
+                self.leader[k] = member
 
     def find(self, k: FNode) -> FNode:
         """Find the root of k in the set"""
